@@ -75,6 +75,7 @@ theorem build_subst (σ : String → Int) (b : Bk) (op : BOp) :
   cases op with
   | cmds cs => simp [build, substBk, substBOp]
   | newArray l => simp [build, substBk, substBOp]
+  | newReg i cs => simp [build, substBk, substBOp]
   | meas m cs =>
     cases m with
     | array => simp [build, substBk, substBOp]
